@@ -13,12 +13,20 @@ def eff_str(e):
     return "plan %d %d %d" % (e[1], e[2], e[3])
 
 
+def time_map(rng):
+    """scale exponent and base of the map t -> base + t * 2^scale applied by the driver: the same histories with large
+    absolute times and large differences (the manager's time type is 64-bit; its behaviour must not depend on the magnitude)"""
+    sc = rng.choice([0, 0, 0, 7, 20, 31, 32, 33, 40])
+    base = rng.choice([0, 0, 1, 2 ** 31 - 3, 2 ** 32 - 2, 2 ** 40 + 5, -(2 ** 33) - 1, -7])
+    return "%d %d" % (sc, base)
+
+
 def graph_scripts(ctx, g):
     walks, ncov, total = core.edge_cover_walks(g, ctx.rng, max_len=300)
     out = []
     for w in walks:
         st0 = core.parse_state(g.state[w[0][1]])
-        out.append("R tm %d" % st0["nt"])
+        out.append("R tm %d %s" % (st0["nt"], time_map(ctx.rng)))
         for (lab, src, dst) in w:
             name, args = core.parse_label(lab)
             if name == "PlanRel":
@@ -35,7 +43,7 @@ def graph_scripts(ctx, g):
 
 
 def random_tm(rng, nt, nops):
-    lines = ["R tm %d" % nt]
+    lines = ["R tm %d %s" % (nt, time_map(rng))]
     now = 0
     for _ in range(nops):
         r = rng.random()
@@ -121,7 +129,7 @@ def replay(ctx, path):
     lines = []
     for e in d["execution"]:
         n = e["e"]
-        if n == "Reset": lines.append("R %s %d" % (e["kind"], e["nt"]))
+        if n == "Reset": lines.append("R %s %d" % (e["kind"], e["nt"]) + (" %d %d" % (e["scale"], e["base_hi"] * 2 ** 31 + e["base_lo"]) if "scale" in e else ""))
         elif n == "Plan": lines.append("Plan %d %d %d" % (e["t"], e["st"], e["iv"]))
         elif n in ("Replan", "Unplan"): lines.append("%s %d" % (n, e["t"]))
         elif n == "SetCb": lines.append("SetCb %d %s" % (e["t"], eff_str([e["k"], e["k2"], e["ds"], e["iv"]])))
